@@ -385,6 +385,8 @@ struct ZoneSpec {
     trans: Vec<(i128, i128)>,
     offs: Vec<i128>,
     fixed_rule: Option<i128>,
+    /// designation of the rule's type: 0 = the same as every table type ("ABC"), 1 = "XBC", 2 = "ABD", 3 = "ABCD", 4 = none
+    rule_name: i128,
 }
 
 fn decode_zone(x: &[i128]) -> (ZoneSpec, usize) {
@@ -401,9 +403,10 @@ fn decode_zone(x: &[i128]) -> (ZoneSpec, usize) {
     p += 1;
     let offs = x[p..p + ny].to_vec();
     p += ny;
-    let fixed_rule = if x[p] == 1 { Some(x[p + 1]) } else { None };
+    let fixed_rule = if x[p] >= 1 { Some(x[p + 1]) } else { None };
+    let rule_name = if x[p] >= 1 { x[p] - 1 } else { 0 };
     p += 2;
-    (ZoneSpec { leaps, trans, offs, fixed_rule }, p)
+    (ZoneSpec { leaps, trans, offs, fixed_rule, rule_name }, p)
 }
 
 fn encode_zone(z: &ZoneSpec) -> Vec<i128> {
@@ -418,7 +421,7 @@ fn encode_zone(z: &ZoneSpec) -> Vec<i128> {
     v.push(z.offs.len() as i128);
     v.extend(z.offs.iter());
     match z.fixed_rule {
-        Some(o) => v.extend([1, o]),
+        Some(o) => v.extend([1 + z.rule_name, o]),
         None => v.extend([0, 0]),
     }
     v
@@ -436,7 +439,10 @@ fn build(z: &ZoneSpec) -> Built {
         leaps: z.leaps.iter().map(|l| LeapSecond::new(l.0 as i64, l.1 as i32)).collect(),
         trans: z.trans.iter().map(|t| Transition::new(t.0 as i64, t.1 as usize)).collect(),
         types: z.offs.iter().map(|&o| LocalTimeType::new(o as i32, o % 2 != 0, Some(b"ABC")).unwrap()).collect(),
-        rule: z.fixed_rule.map(|o| TransitionRule::Fixed(LocalTimeType::new(o as i32, o % 2 != 0, Some(b"ABC")).unwrap())),
+        rule: z.fixed_rule.map(|o| {
+            let name: Option<&[u8]> = match z.rule_name { 0 => Some(b"ABC"), 1 => Some(b"XBC"), 2 => Some(b"ABD"), 3 => Some(b"ABCD"), _ => None };
+            TransitionRule::Fixed(LocalTimeType::new(o as i32, o % 2 != 0, name).unwrap())
+        }),
     }
 }
 
@@ -460,7 +466,7 @@ fn oracle_zone_wf(z: &ZoneSpec) -> Result<(), &'static str> {
         if last.0 == i64::MIN as i128 || u < i64::MIN as i128 || u > i64::MAX as i128 {
             return Err("OutOfRange");
         }
-        if z.offs[last.1 as usize] != ro {
+        if z.offs[last.1 as usize] != ro || z.rule_name != 0 {
             return Err("InconsistentExtraRule");
         }
     }
@@ -501,7 +507,7 @@ fn gen_c03(rng: &mut Rng, n: usize, emit: &mut dyn FnMut(Vec<i128>) -> bool) {
         }
         let leaps = if round % 3 == 0 { random_leaps(rng, round % 2 == 0) } else { vec![] };
         let fixed_rule = if round % 4 == 1 && !trans.is_empty() { Some(offs[trans.last().unwrap().1 as usize]) } else { None };
-        let z = ZoneSpec { leaps, trans, offs, fixed_rule };
+        let z = ZoneSpec { leaps, trans, offs, fixed_rule, rule_name: 0 };
         let mut us: Vec<i128> = vec![i64::MIN as i128, i64::MAX as i128, 0];
         for tr in &z.trans {
             let u = o::g(&z.leaps, tr.0);
@@ -615,7 +621,7 @@ fn eval_c12(x: &[i128]) -> Result<(), Mismatch> {
     if !o::leaps_wf(&leaps) {
         return Ok(());
     }
-    let z = ZoneSpec { leaps: leaps.clone(), trans: vec![(tt, 1), (i64::MAX as i128, 1)], offs: vec![0, 3600], fixed_rule: None };
+    let z = ZoneSpec { leaps: leaps.clone(), trans: vec![(tt, 1), (i64::MAX as i128, 1)], offs: vec![0, 3600], fixed_rule: None, rule_name: 0 };
     let b = build(&z);
     let tz = match TimeZoneRef::new(&b.trans, &b.types, &b.leaps, &b.rule) {
         Ok(tz) => tz,
@@ -728,8 +734,8 @@ fn gen_c13(rng: &mut Rng, n: usize, emit: &mut dyn FnMut(Vec<i128>) -> bool) {
         }
         let leaps = random_leaps(rng, true);
         let fixed_rule = if rng.next() % 2 == 0 && !trans.is_empty() { Some(offs[trans.last().unwrap().1 as usize]) } else if rng.next() % 4 == 0 { Some(offs[0]) } else { None };
-        let mut z = ZoneSpec { leaps, trans, offs, fixed_rule };
-        match round % 12 {
+        let mut z = ZoneSpec { leaps, trans, offs, fixed_rule, rule_name: 0 };
+        match round % 13 {
             1 => z.offs.clear(),
             2 if !z.trans.is_empty() => { let k = rng.range(0, z.trans.len() as i128 - 1) as usize; z.trans[k].1 = z.offs.len() as i128 + rng.pick(&[0i128, 1]); }
             3 if z.trans.len() > 1 => { let k = rng.range(1, z.trans.len() as i128 - 1) as usize; z.trans[k].0 = z.trans[k - 1].0 - rng.pick(&[0i128, 1]); }
@@ -738,6 +744,7 @@ fn gen_c13(rng: &mut Rng, n: usize, emit: &mut dyn FnMut(Vec<i128>) -> bool) {
             6 if z.leaps.len() > 1 => { let k = rng.range(1, z.leaps.len() as i128 - 1) as usize; z.leaps[k].0 = z.leaps[k - 1].0 + 2419198; }
             7 if z.leaps.len() > 1 => { let k = rng.range(1, z.leaps.len() as i128 - 1) as usize; z.leaps[k].1 = z.leaps[k - 1].1 + rng.pick(&[0i128, 2, -2]); }
             8 if z.fixed_rule.is_some() => z.fixed_rule = Some(z.fixed_rule.unwrap() + 1),
+            11 if z.fixed_rule.is_some() => z.rule_name = rng.range(1, 4),
             9 if !z.leaps.is_empty() => z.leaps[0] = (i64::MAX as i128, 1),
             10 if z.leaps.len() > 1 => { z.leaps[0].1 = i32::MIN as i128 + 1; z.leaps[1].1 = i32::MAX as i128; }
             _ => {}
@@ -800,7 +807,7 @@ fn gen_c14_search(rng: &mut Rng, n: usize, emit: &mut dyn FnMut(Vec<i128>) -> bo
             _ => random_leaps(rng, true),
         };
         let fixed_rule = if round % 2 == 0 { Some(offs[trans.last().unwrap().1 as usize]) } else { None };
-        let z = ZoneSpec { leaps, trans, offs, fixed_rule };
+        let z = ZoneSpec { leaps, trans, offs, fixed_rule, rule_name: 0 };
         if oracle_zone_wf(&z).is_err() {
             continue;
         }
@@ -858,6 +865,80 @@ fn eval_c14_search(x: &[i128]) -> Result<(), Mismatch> {
                     return Err(("both halves of a gap entry denote the transition instant".into(), format!("{} vs {}", before_transition.unix_time(), after_transition.unix_time())));
                 }
             }
+        }
+    }
+    Ok(())
+}
+
+
+/// C17 through the public API (BOUNDED: generated zones / local times, buffer lengths 0..=k+2 with stale contents)
+fn same_dt_full(a: &DateTime, b: &DateTime) -> bool {
+    dt_fields(a) == dt_fields(b) && a.unix_time() == b.unix_time() && a.nanoseconds() == b.nanoseconds() && a.local_time_type() == b.local_time_type()
+}
+
+fn same_kind_full(a: &FoundDateTimeKind, b: &FoundDateTimeKind) -> bool {
+    match (a, b) {
+        (FoundDateTimeKind::Normal(x), FoundDateTimeKind::Normal(y)) => same_dt_full(x, y),
+        (FoundDateTimeKind::Skipped { before_transition: a1, after_transition: a2 }, FoundDateTimeKind::Skipped { before_transition: b1, after_transition: b2 }) => same_dt_full(a1, b1) && same_dt_full(a2, b2),
+        _ => false,
+    }
+}
+
+fn same_opt_full(a: &Option<DateTime>, b: &Option<DateTime>) -> bool {
+    match (a, b) {
+        (Some(x), Some(y)) => same_dt_full(x, y),
+        (None, None) => true,
+        _ => false,
+    }
+}
+
+fn eval_c17(x: &[i128]) -> Result<(), Mismatch> {
+    let local = x[0];
+    let (z, _) = decode_zone(&x[1..]);
+    let b = build(&z);
+    let tz = match TimeZoneRef::new(&b.trans, &b.types, &b.leaps, &b.rule) {
+        Ok(tz) => tz,
+        Err(_) => return Ok(()),
+    };
+    let f = o::fields(local);
+    let args = (f.0 as i32, f.1 as u8, f.2 as u8, f.3 as u8, f.4 as u8, f.5 as u8);
+    let alloc = DateTime::find(args.0, args.1, args.2, args.3, args.4, args.5, 3, tz);
+    // stale entries from an unrelated earlier search
+    let stale = FoundDateTimeKind::Normal(DateTime::from_timespec_and_local(12345, 6, LocalTimeType::utc()).unwrap());
+    let k = match &alloc { Ok(l) => l.clone().into_inner().len(), Err(_) => 0 };
+    for n in 0..=k + 2 {
+        let mut buf = vec![Some(stale); n];
+        let r = DateTime::find_n(&mut buf, args.0, args.1, args.2, args.3, args.4, args.5, 3, tz);
+        match (&alloc, r) {
+            (Err(e1), Err(e2)) => {
+                if format!("{e1:?}") != format!("{e2:?}") {
+                    return Err((format!("Err({e1:?})"), format!("Err({e2:?})")));
+                }
+            }
+            (Ok(list), Ok(lr)) => {
+                let v = list.clone().into_inner();
+                let want = n.min(k);
+                if lr.count() != k || lr.is_exhaustive() != (n >= k) || lr.data().len() != want {
+                    return Err((format!("n={n}: count={k} exhaustive={} written={want}", n >= k), format!("count={} exhaustive={} written={}", lr.count(), lr.is_exhaustive(), lr.data().len())));
+                }
+                for i in 0..want {
+                    match &lr.data()[i] {
+                        Some(e) if same_kind_full(e, &v[i]) => {}
+                        other => return Err((format!("n={n}: slot {i} = result {i}"), format!("{other:?}"))),
+                    }
+                }
+                if n >= k && !(same_opt_full(&lr.unique(), &list.unique()) && same_opt_full(&lr.earliest(), &list.earliest()) && same_opt_full(&lr.latest(), &list.latest())) {
+                    return Err((format!("n={n}: unique/earliest/latest as the allocating search"), "different".into()));
+                }
+                drop(lr);
+                for i in want..n {
+                    match &buf[i] {
+                        Some(e) if same_kind_full(e, &stale) => {}
+                        other => return Err((format!("n={n}: slot {i} beyond the reported ones untouched"), format!("{other:?}"))),
+                    }
+                }
+            }
+            (a, r) => return Err((format!("same outcome as the allocating search ({})", if a.is_ok() { "Ok" } else { "Err" }), (if r.is_ok() { "Ok" } else { "Err" }).to_string())),
         }
     }
     Ok(())
@@ -1092,6 +1173,7 @@ const PROBES: &[Probe] = &[
     Probe { name: "C14/new", property: "C14", gen: gen_c14_new, eval: eval_c14_new },
     Probe { name: "C14/from_timespec_and_local", property: "C14", gen: gen_c14_ts, eval: eval_c14_ts },
     Probe { name: "C14/search_entries", property: "C14", gen: gen_c14_search, eval: eval_c14_search },
+    Probe { name: "C17/buffer_vs_alloc", property: "C17", gen: gen_c14_search, eval: eval_c17 },
     Probe { name: "C16/split", property: "C16", gen: gen_c16, eval: eval_c16 },
 ];
 
